@@ -13,7 +13,7 @@ PROP = {
     "cases_per_file": 30,
     "level_text": "Coq theorems: laws of the reference storage (read-your-write, frame, exact sorted half-open range, batch = pointwise, empty value present, conditional ops decide on the current non-expired value and have exactly one winner among any number of concurrent callers in every interleaving (one-transaction model; flag read from the source), TTL visibility until the expiry of the most recent successful write) and refinement of the bbolt model (safeKey keys, ttl index, hourly cleaner, cursor scan) to the reference for all histories incl. clock advances and cleaner runs; mem and bbolt are tied to their models by replaying generated histories inside Coq on every run, and every observed output is also judged directly against the reference",
     "level_note": "trusted: Coq kernel/vm_compute, translator (bbolt decision points), harness; modelled not verified: go.etcd.io/bbolt B-tree as a sorted map with cursor semantics, Go maps, the goroutine scheduling of the cleaner (the harness waits until it re-armed its timer); Cassandra/DynamoDB cannot run offline and are not claimed; concurrent callers of conditional ops are tested on the real backends (goroutines released together; exactly one must win per key) next to the theorem about the one-transaction model - the Go scheduler decides which interleavings that test sees",
-    "rule": "history = 5-45 ops (Put/PutBatch/Get/GetBatch/Read/InsertIfNotExists/CompareAndSwap/CompareAndDelete/TTLGet/TTLRead/QueryTTL/Advance) over colliding key alphabets (nil, empty, 00 00, 01, ff, ff ff, prefixes), values incl. empty, TTLs 0..3601 s, advances around 1 s, TTL and the 1 h cleaner period, plus a final full sweep; alternating mem/bbolt; three concurrency cases per run (2/4/6 goroutines released together on 25 fresh keys, conditional insert then compare-and-swap, mem and bbolt); corpus probes first; non-trivial = some read-type op addresses a partition written earlier; distinct = backend + exact op list",
+    "rule": "history = 5-45 ops (Put/PutBatch/Get/GetBatch/Read/InsertIfNotExists/CompareAndSwap/CompareAndDelete/TTLGet/TTLRead/QueryTTL/Advance) over colliding key alphabets (nil, empty, 00 00, 01, ff, ff ff, prefixes), values incl. empty, TTLs 0..3601 s, advances around 1 s, TTL and the 1 h cleaner period, plus a final full sweep; alternating mem/bbolt; four concurrency cases per run (mem: 8 goroutines x 600 keys and 16 x 300; bbolt: 4 and 6 goroutines x 25 keys; goroutines released together, conditional insert then compare-and-swap); corpus probes first; non-trivial = some read-type op addresses a partition written earlier; distinct = backend + exact op list",
     "trusted_base": ["modelled not verified: bbolt B-tree/cursor, Go map, cleaner goroutine scheduling"],
     "assumptions": ["non-empty partition keys; histories are sequential (concurrent callers only in the conditional-operation cases); clock advances are whole milliseconds"],
 }
